@@ -209,9 +209,10 @@ class Builder:
         self.t = md.tables["t"]
         self.w = md.tables["w"]
 
-    def build(self, stmt, names, inline=False, swap=None):
+    def build(self, stmt, names, inline=False, swap=None, fresh_objects=False):
         """stmt: {occ: [{c, b}], binds: [{kind, n}]} -> (statement, {tag: [values]}); inline: values written as literals;
-        swap=(b1, b2): inline with the two binds' values exchanged (to measure whether the rows depend on them)"""
+        swap=(b1, b2): inline with the two binds' values exchanged (to measure whether the rows depend on them);
+        fresh_objects: every occurrence of a repeated bind is its own BindParameter object of the same name and value"""
         sa, t, w = self.sa, self.t, self.w
         binds = stmt["binds"]
         objs = {}
@@ -230,7 +231,7 @@ class Builder:
             if inline:
                 vs = values(b)
                 return [sa.literal_column(str(v)) for v in vs] if bd["kind"] in ("expanding", "litexp") else sa.literal_column(str(vs[0]))
-            if b not in objs:
+            if b not in objs or fresh_objects:
                 lit = bd["kind"] in ("literal", "litexp")
                 if bd["kind"] in ("expanding", "litexp"):
                     objs[b] = sa.bindparam(names[b], values(b), sa.Integer, expanding=True, literal_execute=lit)
@@ -246,7 +247,11 @@ class Builder:
 
         def IN(k, col, b):
             expected[k] = [val(b, i) for i in range(1, binds[b - 1]["n"] + 1)]
-            return (col + sa.literal_column("0 * %d" % (TAG0 + k))).in_(bind(b))
+            lhs = col + sa.literal_column("0 * %d" % (TAG0 + k))
+            if inline:          # the reference uses no parameter machinery at all: IN written out as a disjunction
+                vs = bind(b)
+                return sa.or_(*[lhs == v for v in vs]) if vs else sa.literal_column("0") == sa.literal_column("1")
+            return lhs.in_(bind(b))
 
         occ = stmt["occ"]
         cl = [o["c"] for o in occ]
@@ -446,9 +451,10 @@ def main(chk):
         for o in stmt["occ"]:
             cov[o["c"]] = cov.get(o["c"], 0) + 1
         ncls = "escaped" if any(re.search(r"\W", names[b]) for b in bs) else "plain"
+        fresh = hash_(tid) % 3 == 0          # a third of the statements repeat a bind as separate BindParameter objects of one name
         for style in STYLES:
             del logs[style][:]
-            s, expected, fam = builder.build(stmt, names)
+            s, expected, fam = builder.build(stmt, names, fresh_objects=fresh)
             rows = run(engines[style], s, fam)
             nexec += 1
             sig = dict(spec="ParamStyle", style=style, scope=scope, family=fam, kinds=kinds, names=ncls,
@@ -479,7 +485,7 @@ def main(chk):
         for dn, d in foreign.items():
             if chk.quick and scope == "model" and (hash_(tid) + len(dn)) % 3:
                 continue        # quick: each statement goes to a third of the driver dialects
-            s, expected, fam = builder.build(stmt, names)
+            s, expected, fam = builder.build(stmt, names, fresh_objects=fresh)
             fsig = dict(spec="ParamStyle", style=d.paramstyle, scope=scope, family=fam, kinds=kinds, names=ncls, dialect=dn)
             try:
                 fsql, fparams = deliver_foreign(d, s)
